@@ -48,7 +48,7 @@ CLAIMED = {
             "full_like, slice reads and split: np.shares_memory must be false and a sentinel written into the result (and into each source) must not "
             "show up on the other side. For every new array: its DimensionSet is not the source's object and an in-place append/drop on either "
             "side does not show on the other. An ndarray assigned through [] is mutated afterwards and must not reach the target.",
-            "Trusted: snapshot comparison; the probes restore what they wrote. Aliasing that the property does not forbid (sum_to without reduction, "
+            "Trusted: snapshot comparison (values bitwise, dims, and the writeable flag of the buffer); the probes restore what they wrote. Aliasing that the property does not forbid (sum_to without reduction, "
             "FlodymArray(dims, values=nd)) is not flagged.",
             "5.1"),
     "C17": ("stocksim", "fault_enumeration",
@@ -58,7 +58,7 @@ CLAIMED = {
             "parameters and interrupts (MemoryError / KeyboardInterrupt from a sys.settrace injector) at line events inside compute / sf / pdf / "
             "set_prms; sweep tasks enumerate every crash point of one operation and then recompute. After every compute() that returns, all "
             "results (stock, inflow, outflow, cohort tables, sf, pdf) must be bitwise equal to those of a freshly built object holding copies of "
-            "the current inputs, and a second compute() must change nothing. Parameters are set and read through the handle the caller kept of the "
+            "the current inputs (the driver arrays it holds and the parameters last handed to set_prms), and a second compute() must change nothing. Parameters are set and read through the handle the caller kept of the "
             "lifetime model it handed to the stock. 30 % of the runs execute in pristine forked processes and compare every compute with the same "
             "inputs computed in another pristine process (module / class level state). Crash points of sampled operations are enumerated, histories sampled.",
             "Trusted: the fresh object runs the same real code (history independence needs no independent DSM arithmetic). Steps that raise or "
